@@ -9,7 +9,9 @@ import (
 	"context"
 	"io"
 	"os"
+	"sort"
 	"strings"
+	"sync"
 	"time"
 
 	"github.com/restic/restic/internal/data"
@@ -31,6 +33,53 @@ func (r *c45SlowRepo) LoadBlob(ctx context.Context, h restic.BlobHandle, buf []b
 		time.Sleep(d)
 	}
 	return r.Loader.LoadBlob(ctx, h, buf)
+}
+
+// c45AdvRepo is the adversarial loader: for one file with many distinct blobs it holds back the
+// download of every (limit+2)-th blob until the download of the blob limit+1 positions later has
+// completed (bounded by a timeout, so nothing can hang), i.e. a download is overtaken by as many
+// later ones as the goroutine and channel limits of writeNode admit. Connections() is chosen by
+// the case (2 or 5).
+type c45AdvRepo struct {
+	restic.Loader
+	conns uint
+	pos   map[restic.ID]int // position in the content list of the big file
+	done  []chan struct{}
+	once  []sync.Once
+}
+
+func newC45AdvRepo(inner restic.Loader, conns uint, content restic.IDs) *c45AdvRepo {
+	r := &c45AdvRepo{Loader: inner, conns: conns, pos: map[restic.ID]int{}}
+	for i, id := range content {
+		r.pos[id] = i
+	}
+	r.done = make([]chan struct{}, len(content))
+	r.once = make([]sync.Once, len(content))
+	for i := range r.done {
+		r.done[i] = make(chan struct{})
+	}
+	return r
+}
+
+func (r *c45AdvRepo) Connections() uint { return r.conns }
+
+func (r *c45AdvRepo) LoadBlob(ctx context.Context, h restic.BlobHandle, buf []byte) ([]byte, error) {
+	i, ok := r.pos[h.ID]
+	if !ok {
+		return r.Loader.LoadBlob(ctx, h, buf)
+	}
+	b, err := r.Loader.LoadBlob(ctx, h, buf)
+	step := int(r.conns) + 2
+	if later := i + int(r.conns) + 1; i%step == 0 && later < len(r.done) {
+		select {
+		case <-r.done[later]:
+			time.Sleep(3 * time.Millisecond) // let the later loader hand its blob over first
+		case <-time.After(400 * time.Millisecond):
+		case <-ctx.Done():
+		}
+	}
+	r.once[i].Do(func() { close(r.done[i]) })
+	return b, err
 }
 
 func c45TarMode(m os.FileMode) int64 {
@@ -130,6 +179,9 @@ func c45Targets(nodes []*a7Node, pre []string, out *[]c45Target) {
 //
 //	cli     the real `restic dump [-a tar|zip] <snapshot> <path>` through the CLI (stdout captured)
 //	direct  dump.New(...).DumpTree / WriteNode on a loader with per-blob delays (loader schedules)
+//	adversarial  (every fifth case) a file with >= 3*connections+2 distinct blobs dumped (alone or
+//	        with its directory) through c45AdvRepo: connections 2 or 5, every (connections+2)-th
+//	        download is held until the download connections+1 positions later has completed
 func streamC45(h *H) {
 	n := h.N(120, 4000)
 	var r *a7Repo
@@ -143,6 +195,45 @@ func streamC45(h *H) {
 		g.MaxDepth = 1 + h.Intn(3)
 		g.MaxKids = 2 + h.Intn(5)
 		t := g.Tree()
+		// a fixed share of the cases is adversarial: a file with >= 3*connections+2 distinct blobs,
+		// dumped through a loader that lets later downloads overtake earlier ones
+		adversarial := i%5 == 2
+		advConns := uint(2)
+		var big *a7Node
+		if adversarial {
+			if h.Bool() {
+				advConns = 5
+			}
+			big = g.file("big")
+			big.Links, big.DeviceID, big.Mode = 1, 0, 0o644
+			big.Parts = nil
+			big.Size = 0
+			for k, nb := 0, 3*int(advConns)+2+h.Intn(6); k < nb; k++ {
+				p := append([]byte{byte(k), byte(k >> 8)}, h.Bytes(2+h.Intn(12))...) // distinct blobs
+				big.Parts = append(big.Parts, p)
+				big.Size += uint64(len(p))
+			}
+			g.fillCommon(big)
+			var dirs []*a7Node
+			for _, x := range t {
+				if x.Type == data.NodeTypeDir {
+					dirs = append(dirs, x)
+				}
+			}
+			dst := &t
+			if len(dirs) > 0 && h.Bool() {
+				dst = &dirs[h.Intn(len(dirs))].Kids
+			}
+			var keep []*a7Node
+			for _, x := range *dst {
+				if x.Name != "big" {
+					keep = append(keep, x)
+				}
+			}
+			keep = append(keep, big)
+			sort.Slice(keep, func(a, b int) bool { return keep[a].Name < keep[b].Name })
+			*dst = keep
+		}
 		id, treeID := r.Snapshot(t)
 
 		var all []c45Target
@@ -175,6 +266,25 @@ func streamC45(h *H) {
 		if tgt == nil {
 			tgt = &c45Target{}
 		}
+		if adversarial { // dump the big file itself or the directory that holds it
+			for k := range all {
+				if all[k].node == big {
+					tgt = &all[k]
+					if h.Bool() {
+						if len(tgt.comps) == 1 {
+							tgt = &c45Target{}
+						} else {
+							for j := range all {
+								if len(all[j].comps) == len(tgt.comps)-1 && strings.Join(all[j].comps, "/") == strings.Join(tgt.comps[:len(tgt.comps)-1], "/") {
+									tgt = &all[j]
+								}
+							}
+						}
+					}
+					break
+				}
+			}
+		}
 		format := "tar"
 		if h.Intn(3) == 0 {
 			format = "zip"
@@ -182,6 +292,9 @@ func streamC45(h *H) {
 		sub := "cli"
 		if h.Intn(3) == 0 {
 			sub = "direct"
+		}
+		if adversarial {
+			sub = "adversarial"
 		}
 		pathArg := "/" + strings.Join(tgt.comps, "/")
 		if sub == "cli" && len(tgt.comps) > 0 && !strings.HasPrefix(tgt.comps[0], "-") && h.Intn(4) == 0 {
@@ -220,12 +333,19 @@ func streamC45(h *H) {
 			out, runErr, panicked = []byte(res.Stdout), res.Err, res.Panic
 		} else {
 			// only meaningful for "/" , directories and files: call the dump package like printFromTree does
-			slow := &c45SlowRepo{Loader: r.Repo, delays: map[restic.ID]time.Duration{}}
-			for bid := range num.ids {
-				slow.delays[bid] = time.Duration(h.Intn(4)) * 300 * time.Microsecond
+			var loader restic.Loader
+			if adversarial {
+				loader = newC45AdvRepo(r.Repo, advConns, big.Content)
+				h.Rec("adv", Itoa(int(advConns)), Itoa(len(big.Content)))
+			} else {
+				slow := &c45SlowRepo{Loader: r.Repo, delays: map[restic.ID]time.Duration{}}
+				for bid := range num.ids {
+					slow.delays[bid] = time.Duration(h.Intn(4)) * 300 * time.Microsecond
+				}
+				loader = slow
 			}
 			var buf bytes.Buffer
-			d := dump.New(format, slow, &buf)
+			d := dump.New(format, loader, &buf)
 			ctx := context.Background()
 			p, msg := Protect(func() {
 				switch {
